@@ -103,6 +103,10 @@ func c04Check(c *vfCase, tl directTally, v *directView, sibling *directService, 
 	firstIP := directFirstIP(v)
 	c.Eval()
 	tl["views:"+kind]++
+	if diffs := directTakeHistoryDiffs(); len(diffs) > 0 {
+		c.Violation("l2:decision-depends-on-process-history", diffs[0], directDetail(c, map[string]any{"view": v, "differences": diffs}))
+		return
+	}
 	switch len(elig) {
 	case 0:
 		tl["views-eligible-0"]++
